@@ -16,7 +16,7 @@ use std::time::Instant;
 
 pub type Key = Vec<i128>;
 
-pub trait Sut: Clone + Send + Sync {
+pub trait Sut: Clone {
     type Act: Clone + Debug + Send + Sync;
     /// complete canonical content of the state (both halves agree whenever no violation was reported)
     fn key(&self) -> Key;
@@ -24,6 +24,10 @@ pub trait Sut: Clone + Send + Sync {
     fn actions(&self) -> Vec<Self::Act>;
     /// apply to implementation and model, compare; Err = violation description. `hits` receives vacuity classes.
     fn step(&mut self, a: &Self::Act, hits: &mut Vec<&'static str>) -> Result<(), String>;
+    /// Called on the (cloned) state right before every `step`: run the read-only queries of the real object so that
+    /// anything they might remember (caches, scratch buffers, lazily built structures) exists when the mutation arrives.
+    /// "query; mutate; query" on ONE object is what exposes a missed invalidation - a clone or a fresh twin would not.
+    fn warm(&self) {}
     /// consistency of a state on its own (used for the initial states)
     fn check(&self) -> Result<(), String> {
         Ok(())
@@ -35,6 +39,13 @@ pub trait Sut: Clone + Send + Sync {
     }
 }
 
+/// A state object is only ever touched by one worker at a time (each frontier entry is expanded by exactly one rayon
+/// task, successors are moved, never shared). The wrapper lets the explorer handle objects that are not `Send`/`Sync`
+/// themselves - e.g. after a change that adds a `RefCell`/`Cell` cache to an ohsl type - instead of failing to build.
+pub struct Own<T>(pub T);
+unsafe impl<T> Send for Own<T> {}
+unsafe impl<T> Sync for Own<T> {}
+
 pub struct BfsOpts {
     pub max_depth: usize,
     pub state_cap: u64,
@@ -43,6 +54,22 @@ pub struct BfsOpts {
 struct Node {
     parent: u32,
     act: u32,
+}
+
+pub fn fingerprint(k: &Key) -> u128 {
+    use std::hash::{BuildHasher, Hash, Hasher};
+    // std's RandomState is randomly keyed; fixed keys are needed for reproducible counts: use two fixed-key hashers
+    let mut h1 = std::collections::hash_map::DefaultHasher::new();
+    0x9e3779b97f4a7c15u64.hash(&mut h1);
+    k.hash(&mut h1);
+    let mut h2 = std::collections::hash_map::DefaultHasher::new();
+    0xc2b2ae3d27d4eb4fu64.hash(&mut h2);
+    k.len().hash(&mut h2);
+    for v in k.iter().rev() {
+        v.hash(&mut h2);
+    }
+    let _ = std::collections::hash_map::RandomState::new().build_hasher();
+    ((h1.finish() as u128) << 64) | h2.finish() as u128
 }
 
 pub fn replay_path<S: Sut>(init: &S, path: &[u64]) -> (Vec<String>, Result<S, String>) {
@@ -56,12 +83,11 @@ pub fn replay_path<S: Sut>(init: &S, path: &[u64]) -> (Vec<String>, Result<S, St
         let a = acts[ai as usize].clone();
         names.push(format!("{:?}", a));
         let mut hits = vec![];
-        let mut s2 = s.clone();
-        let res = catch(|| s2.step(&a, &mut hits));
+        // clone-free: the whole path runs on one object
+        let _ = catch(|| s.warm());
+        let res = catch(|| s.step(&a, &mut hits));
         match res {
-            Ok(Ok(())) => {
-                s = s2;
-            }
+            Ok(Ok(())) => {}
             Ok(Err(e)) => return (names, Err(e)),
             Err(p) => return (names, Err(format!("unexpected panic: {}", p))),
         }
@@ -95,9 +121,11 @@ pub fn explore<S: Sut>(ctx: &Ctx, name: &str, inits: Vec<S>, opts: BfsOpts) {
         return;
     }
     let t0 = Instant::now();
-    let mut seen: HashSet<Key> = HashSet::new();
+    // 128-bit fingerprints of the complete canonical keys (two independently keyed SipHash-1-3 passes); the chance of
+    // a collision among 1e8 states is below 1e-22, far below any other source of doubt, and it keeps memory bounded
+    let mut seen: HashSet<u128> = HashSet::new();
     let mut nodes: Vec<Node> = vec![];
-    let mut frontier: Vec<(S, u32)> = vec![];
+    let mut frontier: Vec<Own<(S, u32)>> = vec![];
     let mut viols: Vec<Viol> = vec![];
     let mut viol_total = 0u64;
     let mut hits: BTreeMap<&'static str, u64> = BTreeMap::new();
@@ -126,9 +154,9 @@ pub fn explore<S: Sut>(ctx: &Ctx, name: &str, inits: Vec<S>, opts: BfsOpts) {
             viols.push(Viol { space: name.to_string(), idx: 0, key: format!("init#{}", i), detail: e, extra: json!({"init": i, "path": []}) });
             continue;
         }
-        if seen.insert(s.key()) {
+        if seen.insert(fingerprint(&s.key())) {
             nodes.push(Node { parent: u32::MAX, act: i as u32 });
-            frontier.push((s.clone(), (nodes.len() - 1) as u32));
+            frontier.push(Own((s.clone(), (nodes.len() - 1) as u32)));
             let mut h = vec![];
             s.classes(&mut h);
             for c in h {
@@ -138,23 +166,26 @@ pub fn explore<S: Sut>(ctx: &Ctx, name: &str, inits: Vec<S>, opts: BfsOpts) {
     }
     let mut depth = 0usize;
     let mut cap = false;
+    let mut last_level_dropped = 0u64;
     let mut level_sizes = vec![frontier.len() as u64];
     while !frontier.is_empty() && depth < opts.max_depth {
-        let mut next: Vec<(S, u32)> = vec![];
+        let mut next: Vec<Own<(S, u32)>> = vec![];
         for chunk in frontier.chunks(8192) {
             if ctx.over_budget() || seen.len() as u64 > opts.state_cap {
                 cap = true;
                 break;
             }
             // expand in parallel; results keep frontier order
-            let expanded: Vec<Vec<(u32, u32, Result<(S, Key), String>, Vec<&'static str>)>> = chunk
+            let expanded: Vec<Own<Vec<(u32, u32, Result<(S, Key), String>, Vec<&'static str>)>>> = chunk
                 .par_iter()
-                .map(|(s, id)| {
+                .map(|own| {
+                    let (s, id) = &own.0;
                     let acts = s.actions();
                     let mut out = Vec::with_capacity(acts.len());
                     for (ai, a) in acts.iter().enumerate() {
                         let mut n = s.clone();
                         let mut h: Vec<&'static str> = vec![];
+                        let _ = catch(|| n.warm());
                         let res = catch(|| n.step(a, &mut h));
                         let r = match res {
                             Ok(Ok(())) => {
@@ -166,18 +197,18 @@ pub fn explore<S: Sut>(ctx: &Ctx, name: &str, inits: Vec<S>, opts: BfsOpts) {
                         };
                         out.push((*id, ai as u32, r, h));
                     }
-                    out
+                    Own(out)
                 })
                 .collect();
             for per_state in expanded {
-                for (pid, ai, r, h) in per_state {
+                for (pid, ai, r, h) in per_state.0 {
                     transitions += 1;
                     for c in h {
                         *hits.entry(c).or_insert(0) += 1;
                     }
                     match r {
                         Ok((n, k)) => {
-                            if seen.insert(k) {
+                            if seen.insert(fingerprint(&k)) {
                                 nodes.push(Node { parent: pid, act: ai });
                                 let nid = (nodes.len() - 1) as u32;
                                 let mut h2 = vec![];
@@ -188,7 +219,12 @@ pub fn explore<S: Sut>(ctx: &Ctx, name: &str, inits: Vec<S>, opts: BfsOpts) {
                                 for c in h2 {
                                     *hits.entry(c).or_insert(0) += 1;
                                 }
-                                next.push((n, nid));
+                                // states of the last level are never expanded: keep a few for the samples only
+                                if depth + 1 < opts.max_depth || next.len() < 64 {
+                                    next.push(Own((n, nid)));
+                                } else {
+                                    last_level_dropped += 1;
+                                }
                             }
                         }
                         Err(e) => {
@@ -214,15 +250,15 @@ pub fn explore<S: Sut>(ctx: &Ctx, name: &str, inits: Vec<S>, opts: BfsOpts) {
             break;
         }
         depth += 1;
-        level_sizes.push(next.len() as u64);
+        level_sizes.push(next.len() as u64 + last_level_dropped);
         if depth == opts.max_depth || next.is_empty() {
             // sample: the last newly discovered state and its history
-            if let Some((s, id)) = next.last().or(frontier.last()) {
+            if let Some(Own((s, id))) = next.last().or(frontier.last()) {
                 let (init_i, p) = path_of(&nodes, *id);
                 let (names, _) = replay_path(&inits[init_i], &p);
                 samples.push(json!({"init": init_i, "history": names, "state": s.show()}));
             }
-            if let Some((s, id)) = next.get(next.len() / 2) {
+            if let Some(Own((s, id))) = next.get(next.len() / 2) {
                 let (init_i, p) = path_of(&nodes, *id);
                 let (names, _) = replay_path(&inits[init_i], &p);
                 samples.push(json!({"init": init_i, "history": names, "state": s.show()}));
@@ -252,6 +288,167 @@ pub fn explore<S: Sut>(ctx: &Ctx, name: &str, inits: Vec<S>, opts: BfsOpts) {
     ctx.push_space(s, viols);
 }
 
+/// Replay-mode exploration: the same breadth-first search over operation histories, but no state object is ever
+/// cloned. Every successor is produced by replaying its complete history (with the read-only `warm` queries before each
+/// step) on ONE object started from the initial state. Whatever a clone would normalise away - spare capacity of a
+/// buffer, a cache, a lazily built index, a stale tail - therefore survives along the path, exactly as it would in a
+/// user's program. States are still deduplicated on the observable key (so the search stays finite); the price is
+/// O(depth) work per transition, hence the smaller depth bounds.
+pub fn explore_replayed<S: Sut>(ctx: &Ctx, name: &str, inits: Vec<S>, opts: BfsOpts) {
+    if let Some(rp) = &ctx.replay {
+        if rp.space != name {
+            return;
+        }
+        // the replay of a recorded path is by construction clone-free as well
+        return explore(ctx, name, inits, opts);
+    }
+    let t0 = Instant::now();
+    let mut seen: HashSet<u128> = HashSet::new();
+    let mut nodes: Vec<Node> = vec![];
+    let mut frontier: Vec<u32> = vec![];
+    let mut viols: Vec<Viol> = vec![];
+    let mut viol_total = 0u64;
+    let mut hits: BTreeMap<&'static str, u64> = BTreeMap::new();
+    let mut transitions = 0u64;
+    let mut samples: Vec<Value> = vec![];
+    let path_of = |nodes: &Vec<Node>, mut id: u32| -> (usize, Vec<u64>) {
+        let mut p = vec![];
+        loop {
+            let n = &nodes[id as usize];
+            if n.parent == u32::MAX {
+                p.reverse();
+                return (n.act as usize, p);
+            }
+            p.push(n.act as u64);
+            id = n.parent;
+        }
+    };
+    // rebuild the object reached by `path` from init, on one object; None if the path no longer applies
+    fn rebuild<S: Sut>(init: &S, path: &[u64]) -> Option<S> {
+        let mut s = init.clone();
+        for &ai in path {
+            let acts = s.actions();
+            let a = acts.get(ai as usize)?.clone();
+            let _ = catch(|| s.warm());
+            let mut h = vec![];
+            match catch(|| s.step(&a, &mut h)) {
+                Ok(Ok(())) => {}
+                _ => return None,
+            }
+        }
+        Some(s)
+    }
+    for (i, s) in inits.iter().enumerate() {
+        if seen.insert(fingerprint(&s.key())) {
+            nodes.push(Node { parent: u32::MAX, act: i as u32 });
+            frontier.push((nodes.len() - 1) as u32);
+        }
+    }
+    let mut depth = 0usize;
+    let mut cap = false;
+    let mut level_sizes = vec![frontier.len() as u64];
+    while !frontier.is_empty() && depth < opts.max_depth {
+        let mut next: Vec<u32> = vec![];
+        for chunk in frontier.chunks(1024) {
+            if ctx.over_budget() || seen.len() as u64 > opts.state_cap {
+                cap = true;
+                break;
+            }
+            let nodes_ref = &nodes;
+            let inits_ref: Vec<Own<&S>> = inits.iter().map(Own).collect();
+            let expanded: Vec<Own<Vec<(u32, u32, Result<Key, String>, Vec<&'static str>)>>> = chunk
+                .par_iter()
+                .map(|id| {
+                    let (init_i, path) = path_of(nodes_ref, *id);
+                    let init: &S = inits_ref[init_i].0;
+                    let mut out = vec![];
+                    let base = match rebuild(init, &path) {
+                        Some(b) => b,
+                        None => {
+                            out.push((*id, 0, Err("replay of an already explored history failed (nondeterministic implementation?)".to_string()), vec![]));
+                            return Own(out);
+                        }
+                    };
+                    let nacts = base.actions().len();
+                    drop(base);
+                    for ai in 0..nacts {
+                        let mut s = match rebuild(init, &path) {
+                            Some(b) => b,
+                            None => continue,
+                        };
+                        let acts = s.actions();
+                        let a = acts[ai].clone();
+                        let _ = catch(|| s.warm());
+                        let mut h: Vec<&'static str> = vec![];
+                        let r = match catch(|| s.step(&a, &mut h)) {
+                            Ok(Ok(())) => Ok(s.key()),
+                            Ok(Err(e)) => Err(e),
+                            Err(p) => Err(format!("unexpected panic: {}", p)),
+                        };
+                        out.push((*id, ai as u32, r, h));
+                    }
+                    Own(out)
+                })
+                .collect();
+            for per_state in expanded {
+                for (pid, ai, r, h) in per_state.0 {
+                    transitions += 1;
+                    for c in h {
+                        *hits.entry(c).or_insert(0) += 1;
+                    }
+                    match r {
+                        Ok(k) => {
+                            if seen.insert(fingerprint(&k)) {
+                                nodes.push(Node { parent: pid, act: ai });
+                                next.push((nodes.len() - 1) as u32);
+                            }
+                        }
+                        Err(e) => {
+                            viol_total += 1;
+                            if viols.len() < 12 {
+                                let (init_i, mut p) = path_of(&nodes, pid);
+                                p.push(ai as u64);
+                                let (names, _) = replay_path(&inits[init_i], &p);
+                                viols.push(Viol { space: name.to_string(), idx: transitions, key: format!("init#{} {}", init_i, names.join(" ; ")), detail: e, extra: json!({"init": init_i, "path": p}) });
+                            }
+                        }
+                    }
+                }
+            }
+        }
+        if cap {
+            break;
+        }
+        depth += 1;
+        level_sizes.push(next.len() as u64);
+        if let Some(id) = next.last() {
+            if depth == opts.max_depth || samples.is_empty() {
+                let (init_i, p) = path_of(&nodes, *id);
+                let (names, st) = replay_path(&inits[init_i], &p);
+                samples.push(json!({"init": init_i, "history": names, "state": st.map(|s| s.show()).unwrap_or_default()}));
+            }
+        }
+        frontier = next;
+    }
+    let mut s = SpaceSummary::new(name, "E2-bfs-replayed");
+    s.len = seen.len() as u64;
+    s.completed = seen.len() as u64;
+    s.cap_hit = cap;
+    s.evals = transitions;
+    s.nontrivial = seen.len() as u64;
+    s.states = seen.len() as u64;
+    s.transitions = transitions;
+    s.depth = depth as u64;
+    for (k, v) in hits {
+        s.hits.insert(k.to_string(), v);
+    }
+    s.samples = samples;
+    s.viol_total = viol_total;
+    s.wall_s = t0.elapsed().as_secs_f64();
+    s.notes.push(format!("clone-free: every transition replays its whole history on one object; level sizes {:?}", level_sizes));
+    ctx.push_space(s, viols);
+}
+
 // ---------------------------------------------------------------------------------------------------
 // stateright adapter (cross-check of the unique-state count with an independent checker)
 
@@ -263,6 +460,10 @@ pub struct SrState<S: Sut> {
     pub s: S,
     pub bad: Option<String>,
 }
+unsafe impl<S: Sut> Send for SrState<S> {}
+unsafe impl<S: Sut> Sync for SrState<S> {}
+unsafe impl<S: Sut> Send for SrModel<S> {}
+unsafe impl<S: Sut> Sync for SrModel<S> {}
 impl<S: Sut> Hash for SrState<S> {
     fn hash<H: Hasher>(&self, h: &mut H) {
         self.s.key().hash(h);
@@ -306,6 +507,7 @@ impl<S: Sut + 'static> Model for SrModel<S> {
         let act = acts[a.0].clone();
         let mut n = st.s.clone();
         let mut h = vec![];
+        let _ = catch(|| n.warm());
         let res = catch(|| n.step(&act, &mut h));
         match res {
             Ok(Ok(())) => Some(SrState { s: n, bad: None }),
